@@ -1,6 +1,8 @@
 package keeper
 
 import (
+	"math/big"
+
 	feemarkettypes "github.com/EscanBE/evermint/v12/x/feemarket/types"
 	"github.com/cosmos/cosmos-sdk/telemetry"
 	sdk "github.com/cosmos/cosmos-sdk/types"
@@ -24,7 +26,9 @@ func (k Keeper) updateBaseFeeForNextBlock(ctx sdk.Context) {
 
 	defer func() {
 		telemetry.SetGauge(func() float32 {
-			return float32(baseFee.Int64())
+			// Int64() panics above 2^63-1, which a base fee may well exceed
+			f, _ := new(big.Float).SetInt(baseFee.BigInt()).Float32()
+			return f
 		}(), "feemarket", "base_fee")
 	}()
 
